@@ -22,9 +22,12 @@ as broken.
   x.startswith(y)                          starts y x
   x.find('c', start)  (1-char constant)    py_find_char x c start
   x.replace('a', 'b') (1-char constants)   py_replace_char x a b
-  x.lower()                                lower x   (Tokenizer.lower, table from the interpreter)
+  x.lower()                                lower x   (CodecPyLib.lower, per-character table from the interpreter)
   chars(x)                                 x   (only if `chars` is exactly  ''.join(chr(byte) for byte in bytestring))
   v = e ; v &= e                           let v := e in ...
+  NAME = <int literal> (upper-case, bound once at top level)   propagated as a constant
+  leading return-free block containing ifs (function with indexing)  emitted as <f>_pre returning the variables
+                                           the rest reads; the rest as <f>_post;  f := bind (f_pre ..) (f_post ..)
   if/elif/else without return inside       let '(v1,..) := if c then (..) else (..) in ...   (phi-join of the
                                            variables assigned inside that existed before)
   if/elif/else with return inside          let kontN := <rest> in if c then .. kontN else .. kontN
@@ -62,6 +65,19 @@ class Fn:
         self.chars_ok = chars_ok
         self.nk = 0
         self.partial = any(isinstance(n, ast.Assign) and self.is_index(n.value) for n in ast.walk(node))
+        # names bound exactly once, at top level, to an int literal: propagated as constants
+        count = {}
+        for n in ast.walk(node):
+            if isinstance(n, (ast.Assign, ast.AugAssign)):
+                tg = n.targets[0] if isinstance(n, ast.Assign) else n.target
+                if isinstance(tg, ast.Name):
+                    count[tg.id] = count.get(tg.id, 0) + 1
+        self.consts = {}
+        for st in node.body:
+            if isinstance(st, ast.Assign) and len(st.targets) == 1 and isinstance(st.targets[0], ast.Name) \
+                    and isinstance(st.value, ast.Constant) and type(st.value.value) is int \
+                    and count.get(st.targets[0].id) == 1 and st.targets[0].id.isupper():
+                self.consts[st.targets[0].id] = st.value.value
 
     def bad(self, node, why):
         raise Refused("%s: line %d: %s (%s)" % (self.node.name, getattr(node, "lineno", 0), why,
@@ -106,6 +122,8 @@ class Fn:
             if isinstance(v, (str, bytes)):
                 return lit(v), "str"
             self.bad(e, "constant kind")
+        if isinstance(e, ast.Name) and e.id in self.consts:
+            return "(%d)%%Z" % self.consts[e.id], "int"
         if isinstance(e, ast.Name):
             if e.id not in env:
                 self.bad(e, "unknown or out-of-scope name " + e.id)
@@ -276,6 +294,8 @@ class Fn:
             if len(s.targets) != 1 or not isinstance(s.targets[0], ast.Name):
                 self.bad(s, "assignment target")
             name = s.targets[0].id
+            if name in self.consts:
+                return self.block(rest, k, env, ind)
             if self.is_index(s.value):
                 x, tx = self.expr(s.value.value, env)
                 i, ti = self.expr(s.value.slice, env)
@@ -339,7 +359,38 @@ class Fn:
         if self.partial:
             r = "(option %s)" % r
         cname = self.node.name.lstrip("_")
-        head = "Definition %s %s : %s :=\n" % (cname, " ".join("(%s : %s)" % (p, ty[t]) for p, t in self.params), r)
+        plist = " ".join("(%s : %s)" % (p, ty[t]) for p, t in self.params)
+        body = [st for st in self.node.body
+                if not (isinstance(st, ast.Expr) and isinstance(st.value, ast.Constant))]
+        cut = next((i for i, st in enumerate(body) if self.has_return([st])), 0)
+        pre = body[:cut]
+        if self.partial and any(isinstance(n, ast.If) for st in pre for n in ast.walk(st)):
+            # the return-free leading block becomes <name>_pre (returns the variables the rest reads),
+            # the rest becomes <name>_post: a mechanical let-abstraction that keeps the proofs modular
+            live = [v for v in self.assigned(pre) if v in self.reads(body[cut:]) and v not in self.consts]
+            if not live or any(v in env for v in live):
+                self.bad(self.node, "cannot split off the leading block")
+            tup = "(" + ", ".join(live) + ")"
+            pre_t = self.block(pre, "(Some %s)" % tup, env, 1)
+            # types of the live variables: from a dry run of the pre block
+            env2 = dict(env)
+            for v in live:
+                env2[v] = "int"
+            for st in pre:
+                for n in ast.walk(st):
+                    if isinstance(n, ast.Assign) and isinstance(n.targets[0], ast.Name) and n.targets[0].id in live \
+                            and not self.is_index(n.value):
+                        _, tv = self.expr(n.value, env2)
+                        if tv != "int":
+                            self.bad(n, "live variable of the leading block is not an int")
+            post_t = self.block(body[cut:], None, env2, 1)
+            lp = " ".join("(%s : Z)" % v for v in live)
+            return ("Definition %s_pre %s : option (%s) :=\n%s.\n\n" % (cname, plist, " * ".join("Z" for _ in live), pre_t) +
+                    "Definition %s_post %s %s : %s :=\n%s.\n\n" % (cname, lp, plist, r, post_t) +
+                    "Definition %s %s : %s :=\n  bind (%s_pre %s) (fun '%s => %s_post %s %s)." % (
+                        cname, plist, r, cname, " ".join(p for p, _ in self.params), tup, cname, " ".join(live),
+                        " ".join(p for p, _ in self.params)))
+        head = "Definition %s %s : %s :=\n" % (cname, plist, r)
         return head + self.block(self.node.body, None, env, 1) + "."
 
 
@@ -351,7 +402,7 @@ def main():
     defs = []
     for name, sig in SIGS.items():
         defs.append(Fn(find_func(tree, [name]), sig, chars_ok).emit())
-    emit("CodecFns", "\n\n".join(defs), requires="From CssV Require Import Base Tokenizer CodecPyLib.\nLocal Open Scope Z_scope.")
+    emit("CodecFns", "\n\n".join(defs), requires="From CssV Require Import Base CodecPyLib.\nLocal Open Scope Z_scope.")
 
 
 if __name__ == "__main__":
